@@ -90,12 +90,19 @@ Proof. exact valid_sched_sound. Qed.
 Theorem C20_schedule_unordered : forall g sc ts, valid_sched g sc = Some ts -> ~ Forall (ordered_task rk5) ts.
 Proof. exact valid_sched_unordered. Qed.
 
+(* coherence of the two directions: a graph with a validated schedule outside the wasm gate is rejected by
+   the checker when no site is listed -- a schedule can never be "found" in a graph that passes [check g nl []] *)
+Theorem C20_schedule_implies_rejected : forall g sc ts, valid_sched g sc = Some ts -> gate_free g sc = true ->
+  forall nl, check g nl [] = false.
+Proof. exact valid_sched_check_rejects. Qed.
+
 (* non-vacuity: the excerpt plus an ordered block-processing function has a validated two-task schedule
    (handshake task two frames deep), found by the search as well *)
 Example C20_excerpt_schedule :
   valid_sched excerpt2 [mkST 1 [Step; Enter 2; Step] 1; mkST 3 [Step] 1] <> None
+  /\ gate_free excerpt2 [mkST 1 [Step; Enter 2; Step] 1; mkST 3 [Step] 1] = true
   /\ existsb (fun x => match snd x with Some _ => true | None => false end) (find_schedules excerpt2 (fun _ => true)) = true.
-Proof. split; [vm_compute; discriminate | vm_compute; reflexivity]. Qed.
+Proof. split; [vm_compute; discriminate | split; vm_compute; reflexivity]. Qed.
 
 (* schedules for the violations that [check] does not accept (must be empty on the unchanged tree); bin/check
    copies these lines into the replay file: a line with a DEADLOCK SCHEDULE is a concrete failing history of the
@@ -181,6 +188,7 @@ Print Assumptions C20_no_deadlock.
 Print Assumptions C20_ranks_match_source.
 Print Assumptions C20_schedule_sound.
 Print Assumptions C20_schedule_unordered.
+Print Assumptions C20_schedule_implies_rejected.
 Print Assumptions C20_repo.
 Print Assumptions C20_known_pairs_pinned.
 Print Assumptions C20_ungated_pinned.
